@@ -11,16 +11,17 @@ Spec validation (infrastructure, never a verdict on jsoncons): agreement of the 
 generated space is established at development time (`python3 checks/c11.py refcheck [tier]`, summary committed under
 spec/validation/C11_agreement_<tier>.json, verified here by the hash of the case files) and with the JSON-Schema-Test-Suite
 (spec/gen/MC_C11valid); at check time python-jsonschema gives a second opinion on a seeded sample when it is installed."""
-import json, os, sys, subprocess, hashlib, shutil
+import json, os, sys, subprocess, hashlib, shutil, decimal
 if __name__ == '__main__':
     sys.path.insert(0, os.path.join(os.path.dirname(os.path.abspath(__file__)), '..', 'lib'))
 import vf
 
 PROP = 'C11'
-QUICK = ['gen/MC_C11atoms_q.cfg', 'gen/MC_C11scope_q.cfg', 'gen/MC_C11uneval_q.cfg', 'gen/MC_C11refs_q.cfg', 'gen/MC_C11nest1_q.cfg', 'gen/MC_C11pairs_q.cfg']
+QUICK = ['gen/MC_C11atoms_q.cfg', 'gen/MC_C11scope_q.cfg', 'gen/MC_C11uneval_q.cfg', 'gen/MC_C11refs_q.cfg', 'gen/MC_C11nest1_q.cfg', 'gen/MC_C11pairs_q.cfg',
+         'gen/MC_C11frac_q.cfg', 'gen/MC_C11fracnest_q.cfg']
 CFG = {'quick': QUICK,
        'thorough': QUICK + ['gen/MC_C11pairs_t.cfg', 'gen/MC_C11uneval2_t.cfg', 'gen/MC_C11uneval3_t.cfg', 'gen/MC_C11sib_t.cfg', 'gen/MC_C11triples_t.cfg',
-                            'gen/MC_C11nest2_t.cfg', 'gen/MC_C11refs2_t.cfg']}
+                            'gen/MC_C11nest2_t.cfg', 'gen/MC_C11refs2_t.cfg', 'gen/MC_C11fracsib3_t.cfg', 'gen/MC_C11fracfull_t.cfg', 'gen/MC_C11fracnest2_t.cfg']}
 IDENT_CFG = 'gen/MC_C11ident.cfg'      # model-internal identities, no emission
 BASE_CFG = 'gen/MC_C11base.cfg'
 VALID_CFG = 'gen/MC_C11valid.cfg'
@@ -34,6 +35,8 @@ def unwire(w):
         return None
     if k in ('bool', 'int'):
         return w[1]
+    if k == 'dec':
+        return float('%de%d' % (w[1], w[2]))
     if k == 'str':
         return ''.join(chr(c) for c in w[1])
     if k == 'arr':
@@ -47,7 +50,7 @@ def sig(r):
     c = r.get('case') or {}
     if not isinstance(c, dict):
         return {'what': r.get('what', 'crash'), 'case': str(c)[:200]}
-    dev = ','.join(sorted(c.get('dev') or []))
+    dev = r['dev'] if isinstance(r.get('dev'), str) else ','.join(sorted(c.get('dev') or []))     # the harness narrows the classes to those the instance can trigger
     what = r.get('what', 'crash' if r.get('crash') else '?')
     if dev:
         return {'dev': dev, 'what': what}
@@ -160,8 +163,13 @@ def run(tier):
     cov['rule'] = ('per dialect (Drafts 4, 6, 7, 2019-09, 2020-12): every schema produced by the grammar plans of spec/gen/MC_C11.tla '
                    '(atoms: one keyword from the full alphabet; nest1: one keyword then one Nest through every in-place / child / reference wrapper; '
                    'pairs: two sibling keywords; uneval: annotation-producing keyword, in-place wrapper, unevaluated* keyword; refs: definitions, references, '
-                   'anchors, recursion; thorough adds triples, two Nest levels, siblings after Nest, doubly nested unevaluated*, references under nesting) x '
-                   'every instance of the base universe and the instances steered from the constants of the schema (c-1, c, c+1, enum/const values, '
+                   'anchors, recursion; frac / fracnest: a numeric keyword, enum or const with a non-integral constant (x.5, x.25, x.75, 1.1, 0.33, 0.1, 0.01) or an '
+                   'integer-valued decimal (1.0, 2.0), then a numeric / type sibling or one Nest through every wrapper; thorough adds triples, two Nest levels, '
+                   'siblings after Nest, doubly nested unevaluated*, references under nesting, fractional keyword x full alphabet / two siblings / two Nest levels) x '
+                   'every instance of the base universe (incl. 1.0, 1.5, [1, 1.0], {"a": 1.0}) and the instances steered from the constants of the schema '
+                   '(numeric bound c: floor(c)-1, floor(c), ceil(c), ceil(c)+1, floor / ceil as x.0 decimals, c, c-0.5, c+0.5, c-+0.25 and the other spelling '
+                   'of a decimal c; divisor b: b, 2b, 3b, -b, b/2, 3b/2, b+0.5, b+1, 0, 0.0; enum/const values in both numeric spellings (1 / 1.0, 2.5 / 2.50); '
+                   'arrays mixing spellings for uniqueItems; 0.0, -1.0, 2.0 for a numeric type; sizes c-1, c, c+1; '
                    'required members present/absent, one level down through every applicator) x 6 presentations (json, ojson, member order reversed / '
                    'alternating, "$schema" vs default_version, verdict-neutral options) x entry points; one case = one (dialect, schema); '
                    'distinct_nontrivial counts the distinct (dialect, schema, instance) triples with a defined verdict that were executed, evaluations '
@@ -169,7 +177,10 @@ def run(tier):
     cov['bounds'] = {c: open(os.path.join(vf.SPEC, c)).read().split('CONSTANTS')[1].split() for c in CFG[tier]}
     cov['samples'] = vf.sample_lines(g[0][0], 2) + vf.sample_lines(g[1][0], 1)
     cov['dont_care_cases'] = totals.get('dontcare', 0)
-    rep.assumptions += ['numbers are small integers; strings are code-point sequences; regular expressions, format, content*, remote references, '
+    cov['dont_care_multipleOf_floating_point_instances'] = totals.get('fp_dontcare_instances', 0)
+    rep.assumptions += ['numbers are small integers and decimals with one or two fraction digits, handed to the library as int64 and as the nearest double; '
+                        '(instance, divisor) pairs of multipleOf that are not both multiples of 1/4 (result depends on binary floating-point rounding) are run but '
+                        'their verdict is not compared; strings are code-point sequences; regular expressions, format, content*, remote references, '
                         '$dynamicRef/$recursiveRef and base-URI changing $id are outside the modelled vocabulary',
                         '(schema, instance) pairs whose evaluation would not terminate (reference cycles without instance descent) are never run',
                         'Draft 2019-09 schemas that combine "contains" and "unevaluatedItems" are a declared dont-care class (the specification text and the reference validator disagree)']
@@ -221,8 +232,16 @@ def tla_val(v, schema_pos=False):
         if abs(v) > 1000000:
             raise Skip('big integer')
         return 'JInt(%d)' % v if v >= 0 else 'JInt(0 - %d)' % -v
-    if isinstance(v, float):
-        raise Skip('float')
+    if isinstance(v, decimal.Decimal):      # a number written with a fraction or exponent part: <<"dec", m, e>>, e in {-1, -2}
+        sign, digits, exp = v.as_tuple()
+        if not isinstance(exp, int) or exp > 3 or abs(v) > 10000:
+            raise Skip('float out of range')
+        q = v.quantize(decimal.Decimal('0.01')) if exp < -1 else v.quantize(decimal.Decimal('0.1'))
+        if q != v:
+            raise Skip('float with more than two fraction digits')
+        e = -2 if exp < -1 else -1
+        m = int(q.scaleb(-e))
+        return '<<"dec", %s, 0 - %d>>' % ('%d' % m if m >= 0 else '0 - %d' % -m, -e)
     if isinstance(v, str):
         return 'JStr(%s)' % tla_cps(v)
     if isinstance(v, list):
@@ -263,15 +282,16 @@ def mkcorpus(out=None):
     entries, skipped, ntests = [], {}, 0
     for draft, d in DRAFTS.items():
         ddir = os.path.join(SUITE, draft)
-        for fn in sorted(os.listdir(ddir)):
+        # (Draft 4 also: the optional file that pins C d4 3.5 "integer: JSON number without a fraction or exponent part" - 1.0 is not an integer)
+        for fn in sorted(os.listdir(ddir)) + (['optional/zeroTerminatedFloats.json'] if draft == 'draft4' else []):
             if not fn.endswith('.json') or fn in SKIP_FILES:
                 continue
             txt = open(os.path.join(ddir, fn)).read()
             try:
-                groups = json.loads(txt)
+                groups = json.loads(txt, parse_float=decimal.Decimal)
             except ValueError:      # the copy shipped in /repo has tests commented out with /* ... */
                 import re
-                groups = json.loads(re.sub(r',(\s*[\]}])', r'\1', re.sub(r'/\*.*?\*/', '', txt, flags=re.S)))
+                groups = json.loads(re.sub(r',(\s*[\]}])', r'\1', re.sub(r'/\*.*?\*/', '', txt, flags=re.S)), parse_float=decimal.Decimal)
             for gi, g in enumerate(groups):
                 try:
                     schema = g['schema']
